@@ -135,6 +135,18 @@ def c03(ctx):
     srep = _seq_replay(ctx, quick, cov)
     trep, results = _treetrace(ctx, quick, cov, 2 if quick else 6)
     cov["binding_selftest"] = _selftest_tree(ctx, results)
+    # the repository's own test suite, run with the hooks on, validated by the same trace specification
+    import subprocess
+    st = os.path.join(ctx.scratch, "suite.ndjson")
+    env = dict(os.environ, **core.GOENV)
+    env["VERIF_TRACE"] = st
+    cmd = ["go", "test", "-tags", "verif", "-vet=off", "-count=1"] + (["-skip", "TestConcurrent"] if quick else []) + ["."]
+    p = subprocess.run(cmd, cwd=core.REPO, env=env, capture_output=True, text=True, timeout=1800)
+    if p.returncode != 0 or not os.path.exists(st):
+        raise core.Infra("the repository's suite does not pass with -tags verif: " + (p.stdout + p.stderr)[-600:])
+    sres = ctx.validate_traces("TraceTree.tla", "TraceTree.cfg", [st], timeout=3600, xmx="6g")
+    results = results + sres
+    cov["suite_trace"] = dict(records=core.count_lines(st), tests="all" if not quick else "all but TestConcurrent")
     violations = _replay_violations(srep, prop) + _tree_violations(results, prop)
     if not quick:
         violations += _replay_violations(_sim_replay(ctx, cov, "P1", 6, 40000, 60, False, "seq6"), prop)
